@@ -327,6 +327,7 @@ static void q_once(const plan_t *p)
             size_t size = (size_t)(2 + o->a[2] % 40); int cb = (o->a[3] & 1) ? (int)(nalloc % NCB) : -1;
             int na;
             if ((o->a[3] >> 2 & 3) == 3 && (o->a[2] >> 8) % 8 == 0) { size = (o->a[2] >> 12 & 1) ? SIZE_MAX : (size_t)1 << 45; PROBE("alloc_size_unsatisfiable"); }
+            if ((o->a[2] >> 16) % 12 == 0 && mode_g != 16) { size = 0; PROBE("alloc_size_zero"); }      /* legal: the pointer lets go of what it had and stays empty */
             x %= NUP;
             if (live_allocs() >= maxlive && tup[x] < 0) { EVT("skip", 0, 0, 0); break; }
             g_cur_ctx = tup[x] >= 0 ? "dest-occupied" : "dest-empty";
@@ -335,6 +336,10 @@ static void q_once(const plan_t *p)
             capture_allocs();
             if (g_aborted) VIOL(g_aborted == 2 ? "assert" : "abort", "unique alloc aborted");
             m_reset_up(x);
+            if (size == 0) {
+                TRY(ret = cstl_unique_ptr_get(&up[x]));
+                if (ret != NULL) VIOL("alloc_zero_not_empty", "unique alloc of 0 bytes: the pointer must let go of what it had and stay empty");
+            } else
             if (g_hs.fired_in_op || g_hs.enomem_in_op) {
                 PROBE("alloc_fail_fired");
                 TRY(ret = cstl_unique_ptr_get(&up[x]));
@@ -394,6 +399,7 @@ static void q_once(const plan_t *p)
         case S_ALLOC: {
             size_t size = (size_t)(2 + o->a[2] % 40); int cb = (o->a[3] & 1) ? (int)(nalloc % NCB) : -1;
             if ((o->a[3] >> 2 & 3) == 3 && (o->a[2] >> 8) % 8 == 0) { size = (o->a[2] >> 12 & 1) ? SIZE_MAX : (size_t)1 << 45; PROBE("alloc_size_unsatisfiable"); }
+            if ((o->a[2] >> 16) % 12 == 0 && mode_g != 16) { size = 0; PROBE("alloc_size_zero"); }      /* legal: the pointer lets go of what it had and stays empty */
             x %= NSP;
             if (live_allocs() >= maxlive && tsp[x] < 0) { EVT("skip", 0, 0, 0); break; }
             g_cur_ctx = tsp[x] >= 0 ? "dest-occupied" : "dest-empty";
@@ -401,6 +407,10 @@ static void q_once(const plan_t *p)
             capture_allocs();
             if (g_aborted) VIOL(g_aborted == 2 ? "assert" : "abort", "shared alloc aborted");
             m_reset_sp(x);
+            if (size == 0) {
+                TRY(ret = cstl_shared_ptr_get(&sp[x]));
+                if (ret != NULL) VIOL("alloc_zero_not_empty", "shared alloc of 0 bytes: the pointer must let go of what it had and stay empty");
+            } else
             if (g_hs.fired_in_op || g_hs.enomem_in_op) {
                 PROBE("alloc_fail_fired");
                 TRY(ret = cstl_shared_ptr_get(&sp[x]));
